@@ -110,8 +110,57 @@ def run(tier, seed, replay):
         add = rng.choice([0, 1, mtu - 1, mtu, mtu + 1, rng.randrange(0, 2 * mtu + 1)])
         cp.append("can_pack %x %x %x" % (ms, add, mtu))
     lines += cp
+    # relation graph maintenance (RelatedEntities through the hook): same index iff connected
+    glines, gexpect = [], []
+    for _ in range(n // 5):
+        nent = rng.choice([3, 4, 5, 7])
+        edges = []
+        ops = []
+        for _ in range(rng.randrange(0, 14)):
+            r = rng.random()
+            a, b = rng.randrange(1, nent + 1), rng.randrange(1, nent + 1)
+            k = rng.randrange(2)
+            if r < 0.6:
+                ops.append("a:%x:%x:%x" % (k, a, b))
+                edges.append((k, a, b))
+            elif r < 0.95:
+                if edges and rng.random() < 0.7:
+                    k, a, b = rng.choice(edges)
+                    if rng.random() < 0.2:
+                        a, b = b, a
+                ops.append("r:%x:%x:%x" % (k, a, b))
+                nodes = {x for e in edges for x in e[1:]}
+                if a in nodes and b in nodes:
+                    edges = [e for e in edges if e != (k, a, b)]
+            else:
+                ops.append("c")
+                edges = []
+        qs = list(range(1, nent + 1))
+        parent = {x: x for x in qs}
+        def find(x):
+            while parent[x] != x:
+                x = parent[x]
+            return x
+        for _, a, b in edges:
+            parent[find(a)] = find(b)
+        nodes = {x for e in edges for x in e[1:]}
+        labels, seen = [], []
+        for x in qs:
+            if x not in nodes:
+                labels.append("-")
+            else:
+                r_ = find(x)
+                if r_ not in seen:
+                    seen.append(r_)
+                labels.append(str(seen.index(r_)))
+        glines.append("graph %s %s" % (";".join(ops) or "-", ",".join("%x" % x for x in qs)))
+        gexpect.append("%s count=%d" % (",".join(labels), len(seen)))
+    lines += glines
     impl, model = kernel_pair(lines)
     diverged, oracle_fail = [], []
+    for l, a, want in zip(glines, impl[-len(glines):] if glines else [], gexpect):
+        if a != want:
+            oracle_fail.append(dict(request=l, implementation=a, expected=want, why="entities connected through registered relations do not share a graph index (or unrelated ones do / the count is wrong)"))
     known_seen = {}
     nontriv = set()
     for l, a, b in zip(lines, impl, model):
@@ -148,6 +197,7 @@ def run(tier, seed, replay):
     rep.cov["distinct_nontrivial"] = len(nontriv)
     rep.cov["rule"] = ("synthetic entities through Mutations::send (hook mutations_split): sizes around max_size-header, half, third, oversize; 0..3 relation groups (also empty), "
                        "0..8 standalone; tracking on 40%; max_size in {16..5000}; plus a can_pack sweep. non-trivial = distinct case that produced >= 2 messages")
+    rep.cov["graph_cases"] = len(glines)
     rep.cov["input_distribution"] = dict(split=n, can_pack=len(cp), corpus=len(corpus), tracked=sum(1 for c in cases if c[0]),
                                          multi_message=len(nontriv), known_class_hits={k: 1 for k in known_seen})
     rep.cov["samples"] = [dict(request=l, implementation=a, model=b) for l, a, b in list(zip(lines, impl, model))[off:off + 4]]
